@@ -55,6 +55,17 @@ def follow_up(sc):
     return [400, dict(s0, size=s0["size"] + 5, salt=7)]
 
 
+def peer_abort(sc):
+    """the peer's connection abort for the running transfer, received while the job thread is held"""
+    s0 = sc["sends"][0]
+    pgn = (s0["pf"] << 8)
+    if sc.get("dll", "j1939-21") == "j1939-21":
+        return [400, {"inject": {"node": s0["node"], "id": (7 << 26) | (0xEC << 16) | (s0["sa"] << 8) | s0["ps"],
+                                 "data": [255, 1, 255, 255, 255, pgn & 255, (pgn >> 8) & 255, 0]}}]
+    return [400, {"inject": {"node": s0["node"], "id": (7 << 26) | (0x4D << 16) | (s0["sa"] << 8) | s0["ps"], "fd": True,
+                             "data": [15, 255, 255, 255, 255, 255, 255, 255, 1, pgn & 255, (pgn >> 8) & 255, 0]}}]
+
+
 def nontrivial(tr):
     """the hold overlapped a reception on the held stack"""
     held = None
@@ -124,6 +135,11 @@ def run(chk, replay):
                 if p0.point_time[pt] == t_first or (quick and last[pt[:3]] != pt):
                     continue              # (not the start-up pass: the transfer has not begun, the other stacks do not exist yet)
                 traces.append(preempt.run(sc2, pt, 1000, during=follow_up(sc))[0])
+                if name == "cm1":
+                    # the peer aborts the connection while the thread is held: whatever becomes of the transfer, the job
+                    # thread survives and both sides are idle in the end
+                    sc3 = dict(sc, hostile=True, expect={"all": False, "idle": True, "free": True, "bus": False, "dm": False})
+                    traces.append(preempt.run(sc3, pt, 1000, during=peer_abort(sc))[0])
         chk.validate(spec + ".tla", spec + ".cfg", traces, "%s%s" % (dll[-2:], name), sig=sig, nontrivial=nontrivial)
     chk.exhaustive = True
     chk.extra["preemption_points"] = npoints
